@@ -27,6 +27,7 @@ type item struct {
 
 	task *modules.Task
 	flap *modules.Module // Mgmt "flap": module to disable right before the panic
+	gate chan struct{}   // From: launched early, its first entry waits until the module is online
 
 	mu   sync.Mutex
 	rets []error // what the blocking run variants returned, in order
@@ -69,6 +70,9 @@ var doubleBarrier *barrier
 func (it *item) body(ctx context.Context) error {
 	n := int(it.entered.Add(1))
 	it.w.log.Rec("begin", it.name, it.kind, map[string]any{"n": n, "ctx_done": ctx.Err() != nil})
+	if n == 1 && it.gate != nil {
+		<-it.gate
+	}
 	if n <= it.panics {
 		if n == 1 {
 			doubleBarrier.arrive()
@@ -219,9 +223,25 @@ func runWorkChild(sp caseSpec, dir string) {
 	ww := &workWorld{world: w, hookDesc: "verif hook"}
 	w.subjectName = "subject"
 
+	// From: the panicking service worker exists before the system starts
+	var early *item
+	if sp.From != "" {
+		early = &item{w: w, name: "subject-" + sp.Kind, kind: sp.Kind, panics: sp.Repeat, val: newValue(sp.Value, "subject-"+sp.Kind),
+			gate: make(chan struct{})}
+	}
+	if sp.From == "globalprep" {
+		modules.SetGlobalPrepFn(func() error {
+			w.log.Rec("begin", "global", "prep", nil)
+			ww.launch(early)
+			return nil
+		})
+	}
 	lc := func(mod, phase string) func() error {
 		return func() error {
 			w.log.Rec("begin", mod, phase, nil)
+			if mod == "subject" && phase == "prep" && sp.From == "prep" {
+				ww.launch(early)
+			}
 			if mod == "subject" && phase == "start" {
 				if err := ww.subject.RegisterEventHook("base", evName, ww.hookDesc, ww.hookFn); err != nil {
 					return err
@@ -257,11 +277,16 @@ func runWorkChild(sp caseSpec, dir string) {
 
 	// idle accounting of the subject, known by construction: nothing of its own runs
 	// (under module management a "notify of change" worker may still be winding down)
-	s0, okIdle := w.settle(snap{})
+	idle := snap{}
+	if early != nil {
+		idle.Workers = 1 // the early service worker, parked at its gate
+	}
+	s0, okIdle := w.settle(idle)
 	if !okIdle {
 		w.harnessProblem("the subject module did not reach its idle accounting (reads %+v)", s0)
 	}
 	w.keepSnap("s0_idle", s0)
+	s0 = snap{} // quiescence at the end: the early service worker has ended as well
 
 	// --- healthy items that run concurrently with the panic
 	var healthy []*item
@@ -288,7 +313,7 @@ func runWorkChild(sp caseSpec, dir string) {
 	// a healthy task runs to completion (the task queue executes one task at a time);
 	// wait until those are accounted for again
 	s1 := w.snap()
-	want1 := s0
+	want1 := idle
 	for _, it := range before {
 		if it.block {
 			d := delta(it.kind)
@@ -309,6 +334,11 @@ func runWorkChild(sp caseSpec, dir string) {
 
 	// --- the panicking item(s)
 	subject := &item{w: w, name: "subject-" + sp.Kind, kind: sp.Kind, panics: sp.Repeat, val: newValue(sp.Value, "subject-"+sp.Kind)}
+	if early != nil {
+		subject = early
+		s1.Workers-- // "previous values" = the accounting without the panicking item
+		w.count("cases_service_worker_launched_before_module_start", 1)
+	}
 	if sp.Mgmt == "flap" {
 		subject.flap = ww.subject
 	}
@@ -334,6 +364,11 @@ func runWorkChild(sp caseSpec, dir string) {
 			}
 			if it.kind == "serviceworker" && occ > 1 {
 				continue // restarted by portbase itself
+			}
+			if it.gate != nil {
+				close(it.gate) // launched long ago (prep): let it go on now, the module is online
+				w.log.Rec("call", "driver", "open gate", map[string]any{"item": it.name})
+				continue
 			}
 			ww.launch(it)
 		}
@@ -630,10 +665,16 @@ func (ww *workWorld) mgmtKind(kind string) string {
 	if ww.spec.Mgmt != "" {
 		return kind + "+mgmt-" + ww.spec.Mgmt
 	}
+	if ww.spec.From != "" {
+		return kind + "+from-" + ww.spec.From
+	}
 	return kind
 }
 
 func (ww *workWorld) mgmtText() string {
+	if ww.spec.From != "" {
+		return " (the service worker was launched from " + ww.spec.From + ", before its module was started; it panicked when the module was online and not stopping)"
+	}
 	switch ww.spec.Mgmt {
 	case "flap":
 		return " (module management on; the module was disabled when the worker panicked and enabled again without a management pass in between: it stayed online and was not stopping)"
